@@ -169,7 +169,7 @@ let handle (cmd : string) (args : t list) : t option =
       let merge2 = table2 "merge2" (function L [e; d] -> (opt_of ufam_of e, nat_atom d) | x -> failwith ("bad merge2 " ^ to_string x)) m2 in
       let flow = table1 "flow" bool_of_sym fl in
       let jview = table1 "jview" nat_atom jv in
-      Some (run_s (merge_main merge2 flow jview (nat_atom estr) a (bool_of_sym tty) (list_of source_of srcs) (source_of stdin_src)))
+      Some (run_s (cli_merge_main merge2 flow jview (nat_atom estr) a (bool_of_sym tty) (list_of source_of srcs) (source_of stdin_src)))
     | "cli-set", [L [A "args"; file; nostdin; noise; value; aliasof; mergekey; valfile; stdin; random; null; delete; anchor; tag;
                      check; saveto; saveto_same; mustexist; backup; eyamlcrypt; priv; priv_ok; pub; pub_ok; rflen; jsonext];
                   tty; valfile_ok; load; gather; built; saveto_t; change_t; flow_t] ->
@@ -184,7 +184,7 @@ let handle (cmd : string) (args : t list) : t option =
       let saveto = table1 "saveto" (lres_of nat_atom) saveto_t in
       let change = table1 "change" change_res_of change_t in
       let flow = table1 "flow" bool_of_sym flow_t in
-      Some (run_s (set_main (lres_of nat_atom built) saveto change flow a (b tty) (b valfile_ok) (raw1_of load)
+      Some (run_s (cli_set_main (lres_of nat_atom built) saveto change flow a (b tty) (b valfile_ok) (raw1_of load)
                      (lres_of (list_of setnode_of) gather)))
     | "cli-paths", [estr; L [A "args"; search; except; nofile; noexpr; nopath; values; noescape; fslash; nostdin; priv; priv_ok; pub; pub_ok];
                     tty; srcs; stdin_src; st] ->
